@@ -9,7 +9,7 @@ EXPLANATION = ('For every finite tag the Substrait producer writes and the consu
                'Substrait specification names for that join), sort direction (asc x nulls_first, both producers of SortField vs '
                'from_substrait_sorts), time precision (TimeUnit <-> 0/3/6/9), window bounds type (Rows/Range; Groups must be refused, not '
                'mapped), type nullability (nullable bool <-> Nullability, Unspecified read as nullable). A wrong entry changes results '
-               'silently after a round trip (a LEFT join coming back as RIGHT, NULLS FIRST as NULLS LAST). Field-level agreement: for the 90 substrait messages the producer builds, every field it fills with a computed value is read somewhere in the consumer (field projection attributed by owner type, or the generated accessor); five exceptions are frozen with reasons. Everything else about the round '
+               'silently after a round trip (a LEFT join coming back as RIGHT, NULLS FIRST as NULLS LAST). Field-level agreement: for the 90 substrait messages the producer builds, every field it fills with a computed value is read somewhere in the consumer (field projection attributed by owner type, or the generated accessor); five exceptions are frozen with reasons. The other direction (producer-reads-every-field): every field of the logical plan node / expression structs the producer accepts is read somewhere in the producer (handlers, helpers, own accessors of the struct); a part never looked at — and not refused either — cannot be in the Substrait plan. Everything else about the round '
                'trip — expressions, literals, schemas, function resolution — is value-level and not decided.')
 ASSUMPTIONS = ['a prost enum travels as the i32 discriminant of the same variant; <E as TryFrom<i32>>::try_from is modelled from the '
                'discriminants of E exported by the driver',
@@ -382,6 +382,40 @@ def consumer_reads_producer_fields(ctx, rule='consumer-reads-what-producer-write
         ctx.floor(rule, 'substrait messages built by the producer', n, floor)
     return n
 
+# parts of a logical plan node the producer may leave unread without losing rows, each with the reason read in the source
+PRODUCER_EXEMPT = {
+    ('Subquery', 'outer_ref_columns'): 'derived: the consumer recomputes it from the decoded subquery plan (all_out_ref_exprs)',
+    ('SubqueryAlias', 'alias'): 'Substrait relations carry no relation names; the consumer resolves columns by position and the root names restore the output names',
+    ('Explain', 'stringified_plans'): 'EXPLAIN is refused by the producer',
+    ('Explain', 'logical_optimization_succeeded'): 'EXPLAIN is refused by the producer',
+    ('TableScan', 'statistics_requests'): 'optimizer hint for statistics collection, does not change rows',
+    ('TableScan', 'fetch'): 'advisory: a provider may return more rows than the hint (TableScan: t1, fetch=1 over a MemTable returns all 3 rows, '
+                            'triage/F19_substrait_null_aware_join_test.rs::scan_fetch_is_advisory) and push_down_limit keeps the Limit node above the scan',
+}
+PRODUCER_FOLLOW = ('datafusion_substrait::logical_plan::producer', '<datafusion_substrait::logical_plan::producer', '<dyn datafusion_substrait', '<T as datafusion_substrait')
+
+
+def producer_reads_plan_fields(ctx):
+    """the other direction of the field agreement (round 4): every field of a logical plan node / expression struct the producer accepts is read
+    somewhere in the producer (its handlers, helpers, the struct's own accessors) — a part of the plan the producer never looks at cannot be in
+    the Substrait plan, and since the producer does not refuse the node either, the round-tripped plan silently differs."""
+    import protocov
+    rule = 'producer-reads-every-field'
+    n = protocov.check_encoder_reads(ctx, 'LogicalPlan', SP + 'producer::rel::to_substrait_rel', 'datafusion_expr::logical_plan::plan::LogicalPlan', rule=rule,
+                                     exempt=PRODUCER_EXEMPT, follow=PRODUCER_FOLLOW, per_variant=False)
+    n += protocov.check_encoder_reads(ctx, 'Expr', SP + 'producer::expr::to_substrait_rex', 'datafusion_expr::expr::Expr', rule=rule,
+                                      exempt=PRODUCER_EXEMPT, follow=PRODUCER_FOLLOW, per_variant=False)
+    ctx.floor(rule, 'plan / expression structs the producer reads', n, 20)
+    import common
+    st = ctx.st
+    probe = common.Ctx(ctx.pid, ctx.tier, st, st, {})
+    probe.known = []
+    SPL = 'dfscan_selftest::protos::lp::'
+    protocov.check_encoder_reads(probe, 'Plan', SPL + 'encode', SPL + 'Plan', rule='st-src', exempt={}, follow=('dfscan_selftest::protos::lp',), per_variant=False, facts=st)
+    ctx.selftest('producer-reads-every-field (per-struct mode, custom follow set) reports Scan.fetch never read by the selftest encoder, accepts Sort',
+                 sorted(v['key'] for v in probe.viol) == ['st-src|Scan.fetch'])
+
+
 def run(ctx):
     join_types(ctx, SP + 'producer::rel::join::to_substrait_jointype', SP + 'consumer::rel::join_rel::from_substrait_jointype')
     sort_directions(ctx, [SP + 'producer::utils::substrait_sort_field', SP + 'producer::expr::aggregate_function::to_substrait_sort_field'],
@@ -392,6 +426,7 @@ def run(ctx):
     n = sum(1 for o in ctx.obls if o[2])
     ctx.floor('roundtrip', 'tag round-trip instances decided', n, 26)
     consumer_reads_producer_fields(ctx)
+    producer_reads_plan_fields(ctx)
     # selftest: the seeded decoder in the selftest crate maps RightMark to LeftMark
     import common, tagtab
     st = ctx.st
